@@ -221,7 +221,7 @@ DIRECTED = [
     (("C18", "C08", "C03", "C11"), "reset-after-rename", reset_after_rename, "every reflog position after branch --rename (which journals a record without a commit id), in every mode"),
     (("C14", "C10", "C03"), "colon-branches", colon_branches, "a branch whose name contains ': ' beside a branch named by the part before it"),
     (("C06", "C09"), "deep-directories", deep_directories, "directory arguments with two and more slashes for restore --staged, restore, rm, add"),
-    (("C03", "C09", "C18"), "dir-became-file", dir_became_file, "a tracked directory removed and replaced by a file of the same name, staged, then restore --staged of that name"),
+    (("C03", "C09", "C18", "C07", "C13"), "dir-became-file", dir_became_file, "a tracked directory removed and replaced by a file of the same name, staged, then restore --staged of that name"),
     (("C17", "C13"), "ignored-same-basename", ignored_same_basename, "an untracked file inside an ignored directory below the root whose base name equals a tracked top-level file"),
     (("C07", "C13", "C04"), "percent-paths", percent_paths, "path names containing % in every class of the status report"),
     (("C10", "C18"), "dot-branches", dot_branches, "branch names starting with '.' or '-': listed, not created twice, switched to, renamed, deleted"),
